@@ -197,6 +197,11 @@ func (it *treeIterator) Seek(key node.Key) {
 	if it.err != nil {
 		return
 	}
+	if len(key) > node.MaxKeySize {
+		// No stored key can be this long (the key may come from a remote iterate request).
+		it.setError(ErrKeyTooLong)
+		return
+	}
 
 	it.reset()
 	err := it.doNext(it.tree.cache.pendingRoot, 0, node.Key{}, key, visitBefore)
